@@ -402,3 +402,54 @@ def concat_parts(expr: ast.AST) -> list[str]:
 
     rec(expr)
     return [repr(v) if k == "c" else v for k, v in parts if not (k == "c" and v == "")]
+
+
+def rebound_names(node: ast.AST) -> set[str]:
+    """Plain names (re)bound by a statement: the subset of assigned_names() that is not an in-place mutation."""
+    return {t for t in assigned_names(node) if "." not in t and t != "?"} - _inplace_roots(node)
+
+
+def _inplace_roots(node: ast.AST) -> set[str]:
+    """Plain names that are only mutated in place (x[k] = v, x.append(v)) and not re-bound by the statement."""
+    bound: set[str] = set()
+    inplace: set[str] = set()
+
+    def target(t: ast.AST) -> None:
+        if isinstance(t, ast.Name):
+            bound.add(t.id)
+        elif isinstance(t, (ast.Tuple, ast.List)):
+            for x in t.elts:
+                target(x)
+        elif isinstance(t, ast.Starred):
+            target(t.value)
+        elif isinstance(t, (ast.Subscript, ast.Attribute)):
+            tok = _mutated_token(t)
+            if "." not in tok:
+                inplace.add(tok)
+
+    for n in ast.walk(node):
+        if isinstance(n, (ast.FunctionDef, ast.AsyncFunctionDef, ast.ClassDef)):
+            bound.add(n.name)
+        elif isinstance(n, ast.Assign):
+            for t in n.targets:
+                target(t)
+        elif isinstance(n, (ast.AugAssign, ast.AnnAssign)):
+            target(n.target)
+        elif isinstance(n, (ast.For, ast.AsyncFor)):
+            target(n.target)
+        elif isinstance(n, (ast.With, ast.AsyncWith)):
+            for item in n.items:
+                if item.optional_vars is not None:
+                    target(item.optional_vars)
+        elif isinstance(n, ast.NamedExpr):
+            target(n.target)
+        elif isinstance(n, ast.ExceptHandler) and n.name:
+            bound.add(n.name)
+        elif isinstance(n, ast.Delete):
+            for t in n.targets:
+                target(t)
+        elif isinstance(n, ast.Call) and isinstance(n.func, ast.Attribute) and n.func.attr in MUTATORS:
+            tok = _mutated_token(n.func.value, receiver=True)
+            if "." not in tok:
+                inplace.add(tok)
+    return inplace - bound
